@@ -198,6 +198,43 @@ func (g *generator) genSet(view []vrow, uid bool) string {
 	}
 }
 
+// genSetUnordered: a set of at least two messages that is NOT written in ascending order (needs len(view) >= 2):
+// 3,1   4:2,1   2,2:3   3,2,1   2:3,1:2   *,1
+func (g *generator) genSetUnordered(view []vrow, uid bool) string {
+	n := len(view)
+	num := func(i int) string {
+		if uid {
+			return fmt.Sprint(view[i-1].UID)
+		}
+		return fmt.Sprint(i)
+	}
+	a := g.rng.Range(1, n-1)
+	b := g.rng.Range(a+1, n) // a < b
+	switch x := g.rng.Pick(100); {
+	case x < 30:
+		return num(b) + "," + num(a)
+	case x < 45:
+		if b < n {
+			return num(n) + ":" + num(b) + "," + num(a) // 4:2,1
+		}
+		return num(b) + "," + num(a) + ":" + num(b)
+	case x < 60:
+		return num(b) + "," + num(a) + ":" + num(b) // 2,2:3 shape: an element again inside a later range
+	case x < 72:
+		if n >= 3 {
+			c := g.rng.Range(1, n)
+			return num(b) + "," + num(c) + "," + num(a)
+		}
+		return num(b) + "," + num(a)
+	case x < 84:
+		return num(a) + ":" + num(b) + "," + num(1) + ":" + num(a)
+	case x < 92:
+		return "*," + num(a)
+	default:
+		return num(b) + ":" + num(a) + "," + num(a) // a reversed range and its lower end again
+	}
+}
+
 // setAround: a set that contains the given row (position p, 1-based) of the view.
 func (g *generator) setAround(view []vrow, p int, uid bool) string {
 	num := func(i int) string {
@@ -238,6 +275,14 @@ func (g *generator) badSet(view []vrow) string {
 	default:
 		return fmt.Sprintf("%d,%d", n+2, n+1)
 	}
+}
+
+// copySet: the set of a COPY / MOVE; 40% of the time (two or more messages in view) not written in ascending order
+func (g *generator) copySet(view []vrow, uid bool) string {
+	if len(view) >= 2 && g.rng.Chance(0.4) {
+		return g.genSetUnordered(view, uid)
+	}
+	return g.genSet(view, uid)
 }
 
 func stalePositions(view []vrow) []int {
@@ -479,7 +524,7 @@ func (g *generator) next(w *world) (op, bool, error) {
 				kind = "MOVE"
 			}
 			uid := g.rng.Chance(0.3)
-			return op{Kind: kind, S: si, UID: uid, Set: g.genSet(view, uid), Box: s.box}, true, nil
+			return op{Kind: kind, S: si, UID: uid, Set: g.copySet(view, uid), Box: s.box}, true, nil
 		default:
 			// a message that the destination already holds
 			for _, i := range g.rng.Perm(n) {
@@ -557,9 +602,9 @@ func (g *generator) next(w *world) (op, bool, error) {
 		}
 		return op{Kind: kind, S: si, Box: box}, true, nil
 	case x < 78:
-		return op{Kind: "COPY", S: si, UID: uid, Set: g.genSet(view, uid), Box: otherBox(g.rng, s.box)}, true, nil
+		return op{Kind: "COPY", S: si, UID: uid, Set: g.copySet(view, uid), Box: otherBox(g.rng, s.box)}, true, nil
 	case x < 89:
-		return op{Kind: "MOVE", S: si, UID: uid, Set: g.genSet(view, uid), Box: otherBox(g.rng, s.box)}, true, nil
+		return op{Kind: "MOVE", S: si, UID: uid, Set: g.copySet(view, uid), Box: otherBox(g.rng, s.box)}, true, nil
 	case x < 94:
 		kind := []string{"STORE", "COPY", "MOVE"}[g.rng.Pick(3)]
 		o := op{Kind: kind, S: si, Set: g.badSet(view), Box: otherBox(g.rng, s.box)}
